@@ -40,13 +40,13 @@ PROP = dict(
         ],
         thorough=[
             job(PKG, "^TestVerifC16Repro$", ["TestVerifC16Repro"], 1, shards=1),
-            job(PKG, "^TestVerifC16Sequential$", ["TestVerifC16Sequential"], 2000, shards=12,
+            job(PKG, "^TestVerifC16Sequential$", ["TestVerifC16Sequential"], 800, shards=12,
                 env=dict(VERIF_C16_OPS=60), timeout=1200),
-            # goroutines + readers, no race detector (10x the cases of the race job)
-            job(PKG, "^TestVerifC16Concurrent$", ["TestVerifC16Concurrent"], 150, shards=6,
+            # goroutines + readers, no race detector (more cases than the race job can afford)
+            job(PKG, "^TestVerifC16Concurrent$", ["TestVerifC16Concurrent"], 80, shards=6,
                 env=dict(VERIF_C16_CONC_OPS=24), timeout=1200),
             # the same under -race (modernc sqlite is ~10x slower when instrumented)
-            job(PKG, "^TestVerifC16Concurrent$", ["TestVerifC16Concurrent"], 40, shards=8,
+            job(PKG, "^TestVerifC16Concurrent$", ["TestVerifC16Concurrent"], 25, shards=8,
                 race=True, env=dict(VERIF_C16_CONC_OPS=20, VERIF_C16_READS=80), timeout=1200),
         ],
     ),
